@@ -541,6 +541,17 @@ func flprog() {
 		universe := uint64(8 + rng.Intn(30))
 		big := i%500 == 499
 		p := genFLProg(rng, kind, 5+rng.Intn(60), universe, big)
+		if i < 8 {
+			// boundary of the count encoding of the freelist page (count < 0xFFFF inline, else
+			// 0xFFFF + real count in the first slot): lists of 65533..65537 entries, free and pending
+			n := uint64(65533 + i/2)
+			ids := make([]uint64, 0, n)
+			for id := uint64(2); id < 2+n; id++ {
+				ids = append(ids, id)
+			}
+			p = flProg{Kind: kind, Ops: []flOp{{K: "init", IDs: ids}, {K: "commit"}, {K: "free", T: 5, A: n + 10, B: 0}, {K: "commit"},
+				{K: "free", T: 5, A: n + 20, B: 1}, {K: "commit"}, {K: "state"}}}
+		}
 		in, want, mf := runFLProg(p, rep)
 		// The shadow pending set needs the model's answer after a release with readers; programs
 		// that hit SYNC stop shadow-based monitors there (want lines after it remain compared).
